@@ -132,14 +132,15 @@ def _replay(ctx, name, behaviours):
     return [by[i + 1] for i in range(len(behaviours))]
 
 
-def _split_trace(path, maxev):
-    """split a recorded votes trace at Reset events into chunks of about maxev events"""
+def _split_trace(paths, maxev):
+    """the recorded votes traces concatenated and split at Reset events into chunks of about maxev events"""
     chunks, cur = [], []
-    for line in open(path):
-        if line.startswith('{"a":"Reset"') and len(cur) >= maxev:
-            chunks.append(cur)
-            cur = []
-        cur.append(line)
+    for path in paths:
+        for line in open(path):
+            if line.startswith('{"a":"Reset"') and len(cur) >= maxev:
+                chunks.append(cur)
+                cur = []
+            cur.append(line)
     if cur:
         chunks.append(cur)
     return chunks
@@ -181,48 +182,49 @@ def _opstr(e):
 FAMILIES = ("f1", "f1late", "f2", "rnd")
 
 
-def _votes_family(ctx, prefix, fam, args, quick):
-    """record one family of votes histories from the real box, then let TLC (LastPointVoteTrace) judge it in chunks"""
-    t = time.time()
-    ctx.vh(["C06", "votes", "--family", fam] + args + ["--out", prefix], timeout=6000)
-    rec = round(time.time() - t, 1)
-    chunks = _split_trace(prefix + "." + fam, 25000 if quick else 40000)
-    with ThreadPoolExecutor(max_workers=1 if quick else 3) as ex:
-        res = list(ex.map(lambda a: _vote_trace(ctx, "vt-%s-%d" % (fam, a[0]), a[1]), list(enumerate(chunks))))
-    return rec, [(fam, ci, lines, r) for (ci, lines), r in zip(enumerate(chunks), res)]
+def _votes_job(ctx, prefix, args, quick):
+    """record the four families of votes histories from the real box (four processes side by side), then let
+    TLC (LastPointVoteTrace) judge the recording: one JVM in the quick tier (the cost of a chunk is the JVM, not
+    its events), a few big chunks in the thorough tier"""
+    def record(fam):
+        t = time.time()
+        ctx.vh(["C06", "votes", "--family", fam] + args + ["--out", prefix], timeout=6000)
+        return round(time.time() - t, 1)
+    with ThreadPoolExecutor(max_workers=4) as ex:
+        rec = dict(zip(FAMILIES, ex.map(record, FAMILIES)))
+    chunks = _split_trace([prefix + "." + fam for fam in FAMILIES], 10 ** 9 if quick else 150000)
+    with ThreadPoolExecutor(max_workers=6) as ex:
+        res = list(ex.map(lambda a: _vote_trace(ctx, "vt-%d" % a[0], a[1]), list(enumerate(chunks))))
+    return rec, [(ci, lines, r) for (ci, lines), r in zip(enumerate(chunks), res)]
 
 
 def _votes_start(ctx, prefix, quick, args):
-    """the four families side by side (they run while the other relations are judged)"""
-    ex = ThreadPoolExecutor(max_workers=4)
-    futs = [(fam, ex.submit(_votes_family, ctx, prefix, fam, args, quick)) for fam in FAMILIES]
+    """runs beside everything else"""
+    ex = ThreadPoolExecutor(max_workers=1)
+    fut = ex.submit(_votes_job, ctx, prefix, args, quick)
     ex.shutdown(wait=False)
-    return futs
+    return fut
 
 
-def _votes_finish(ctx, futs, diverge):
+def _votes_finish(ctx, fut, diverge):
     """the verdict on the recorded votes traces"""
-    done = []
-    ctx.extra["votes_recording_wall_s"] = {}
-    for fam, f in futs:
-        rec, res = f.result()
-        ctx.extra["votes_recording_wall_s"][fam] = rec
-        done += res
+    ctx.extra["votes_recording_wall_s"], done = fut.result()
     stats = {"histories": 0, "votes": 0, "moves_by_vote_to_embedded_voteproof": 0, "moves_by_vote_to_counted_voteproof": 0,
              "steps_back_by_vote(suffrage-confirm)": 0, "moves_by_count": 0, "moves_by_setlastpoint": 0,
              "lower_height_voteproof_forwarded_by_suffrage_confirm_filter(position kept)": 0}
-    ctx.extra["votes_trace_validation_wall_s"] = {"%s-%d(%d events)" % (fam, ci, len(lines)): round(r.wall, 1) for fam, ci, lines, (r, _) in done}
-    for fam, ci, lines, (r, sub) in done:
+    ctx.extra["votes_trace_validation_wall_s"] = {"chunk %d (%d events)" % (ci, len(lines)): round(r.wall, 1) for ci, lines, (r, _) in done}
+    for ci, lines, (r, sub) in done:
         ctx.states += r.distinct
         ctx.transitions += r.generated
         ctx.tlc_cmds += sub.tlc_cmds
         evs = [json.loads(x) for x in lines]
-        hist = None
+        hist = fam = None
         for e in evs:
             if e["a"] == "Reset":
                 if hist is not None:
                     ctx.case(hist, nontrivial=True)
                 hist = ["votes", e["nn"], e["t10"], e["ex"], e["suf"]]
+                fam = e["tag"]
                 stats["histories"] += 1
                 ctx.traces += 1
                 continue
@@ -259,7 +261,7 @@ def _votes_finish(ctx, futs, diverge):
             ctx.violation(key, "real Ballotbox (n=%d, threshold %s%%%s): after %s the call %s moves the position %s -> %s (%s)" % (
                 hs[0]["nn"], hs[0]["t10"] / 10, ", last node expelled" if hs[0]["ex"] else "",
                 " ; ".join(_opstr(x) for x in hs[1:-1]) or "nothing", _opstr(e), pstr(e["before"]), pstr(e["after"]), cls),
-                {"family": fam, "history": hs})
+                {"family": hs[0]["tag"], "history": hs})
         for m in re.finditer(r'<<"DIVERGE", "([^"]*)", (\d+)>>', r.out):
             k = "votes:" + m.group(1)
             diverge[k] = diverge.get(k, 0) + 1
@@ -308,11 +310,11 @@ def run(ctx):
         f_simv = ex.submit(job, "simv", lambda c: c.tlc_simulate("LastVoteproofs", "LastVoteproofs_sim.cfg", num=nb, depth=9, timeout=3000))
         f_vmc = ex.submit(job, "lpvmc", lambda c: c.tlc("LastPointVote", "LastPointVote_mc_quick.cfg" if quick else
                                                          "LastPointVote_mc_thorough.cfg", timeout=6000, workers=4 if quick else 8))
-        f_vcand = ex.submit(job, "lpvcand", lambda c: c.tlc("LastPointVote", "LastPointVote_cand.cfg", timeout=900,
-                                                             allow_violation=True, workers=2))
-        names = [("dump", f_dump), ("lvmc", f_mc), ("lvcand", f_cand), ("simb", f_simb), ("simv", f_simv),
-                 ("lpvmc", f_vmc), ("lpvcand", f_vcand)]
+        names = [("dump", f_dump), ("lvmc", f_mc), ("lvcand", f_cand), ("simb", f_simb), ("simv", f_simv), ("lpvmc", f_vmc)]
         if not quick:
+            # not vacuous: without the Before() re-check of countVoterecords the statement must fail on the model
+            names.append(("lpvcand", ex.submit(job, "lpvcand", lambda c: c.tlc("LastPointVote", "LastPointVote_cand.cfg", timeout=900,
+                                                                                allow_violation=True, workers=2))))
             names.append(("lpvmc2", ex.submit(job, "lpvmc2", lambda c: c.tlc("LastPointVote", "LastPointVote_mc_thorough2.cfg",
                                                                               timeout=2400, workers=4))))
             names.append(("lpvvac", ex.submit(job, "lpvvac", lambda c: c.tlc("LastPointVote", "LastPointVote_vac.cfg", timeout=900, workers=2,
@@ -332,9 +334,10 @@ def run(ctx):
 
     ctx.extra["voting_model_check_wall_s"] = {k: round(done[k].wall, 1) for k in done if k.startswith("lpv")}
     # the voting model: without the Before() re-check of countVoterecords the statement must fail (not vacuous)
-    if done["lpvcand"].violated != "MoveOK":
-        raise core.MachineryError("LastPointVote with Guard = \"filter\" does not violate MoveOK: the voting model is vacuous")
-    ctx.extra["voting_model_needs_Before_recheck(Guard=filter violates MoveOK)"] = True
+    if "lpvcand" in done:
+        if done["lpvcand"].violated != "MoveOK":
+            raise core.MachineryError("LastPointVote with Guard = \"filter\" does not violate MoveOK: the voting model is vacuous")
+        ctx.extra["voting_model_needs_Before_recheck(Guard=filter violates MoveOK)"] = True
     if "lpvvac" in done:
         seen = set(re.findall(r"Action property (\w+) is violated", done["lpvvac"].out))
         want = {"NeverMovesByCount", "NeverBackByVote", "NeverToEmbedded", "NeverToCounted"}
